@@ -12,6 +12,12 @@ def hook_commits():
         return []
 
 CHECKS = {
+ "C03": dict(
+    level="exploration",
+    technique="bounded-exhaustive strings over a 10-symbol alphabet (two-pass: rejected-key set vs reference pattern parser, then compiled evaluation vs reference evaluator), round-trip law on rapid Unicode strings with doubled %, rapid chunk sequences with environment variation against the DI interpreter",
+    text="Complete inside the bound for the accept/reject decision of every %-pattern and for the evaluated Go type and value of every accepted one, at the three positions a pattern can occur in; the doubling round-trip and function/env semantics are sampled over Unicode and chunk sequences.",
+    note="Trusts the reference pattern parser/evaluator (written from the documentation) and the probe; function arguments that are not literal lists are verdict-only (documented precondition).",
+    ref="DESIGN.md §4 C03"),
  "C20": dict(
     level="exploration",
     technique="rapid-generated concurrent scripts (goroutine fan-out behind a barrier, drawn programmes, Gosched points, GOMAXPROCS 2/16, repeated rounds) executed in a probe built with the Go race detector; invariants over the collected history against the sequential DI model",
